@@ -142,7 +142,7 @@ PROPS["C11"] = {
 
 PROPS["C13"] = {
     "kani": ["c13_octree"],
-    "verus": ["kdtree", "octleaf"],
+    "verus": ["kdtree", "octleaf", "octprune"],
     "technique": "Verus: recursive contracts on k-d tree construction (build_rec establishes the k-d invariant over exactly the palette entries) and on the branch-and-bound search, composed through ColorPalette::{new,find} into exact nearest-colour lookup for every palette and query (unbounded); Kani/CBMC full-domain harnesses on octree path/summary/error arithmetic; Verus on leaf accumulation",
     "level_text": "Proved (Verus, every palette length incl. duplicates and clustered values, every query colour): KDTree::new's build_rec appends |colors| nodes, leaves earlier nodes untouched, and the subtree rooted at the last node "
                   "satisfies the k-d invariant (children precede parents; every node of the left subtree <= the split value <= every node of the right subtree in the node's dimension) and holds exactly the (index, rgb) entries of the slice; "
@@ -150,12 +150,14 @@ PROPS["C13"] = {
                   "composed: ColorPalette::new(colors) is None iff colors is empty, otherwise a palette p with p.colors == colors, and p.find(q) returns (i, c) with i < |colors|, c's rgb == colors[i]'s rgb, alpha 255, and "
                   "d2(q, colors[i]) <= d2(q, colors[k]) for every k. Proved (Kani, complete): OcTreePath yields the 8 MSB-first child indices; "
                   "OcTreeInfo::join is a commutative monoid; ColorError::add clamps to 0..=255. Proved (Verus): leaf accumulation keeps acc <= 255*count without overflow and to_rgba is the per-channel floor of the mean, always a byte. "
-                  "Octree insertion/pruning/palette size, sampling, losslessness and dithering order are NOT decided.",
+                  "Proved (Verus, unit octprune): OcTree::prune_until(n) returns with the leaf summary <= max(n, 8) and leaves a tree that already fits completely untouched (the tree-level half of losslessness). "
+                  "That the leaf summary equals the real number of leaves (insert/prune/build_palette), sampling and dithering order are NOT decided.",
     "level_note": "Assumed: slice::sort_by_key sorts by the key and permutes (its std contract, N8); the iterator chain iter().map(to_rgb).enumerate().collect() yields (k, colors[k].rgb) (N8); rasterize::RGBA as an opaque stand-in (N18). Not under contract: OcTree::{insert,prune_until,build_palette}, ColorPalette::from_image, Image::quantize loops.",
     "assumptions": [
         "slice::sort_by_key: result ordered by the key and a rearrangement of the input (external_body wrapper sort_colors_by_dim)",
         "colors.iter().map(|c| c.to_rgb()).enumerate().collect() == [(k, colors[k].to_rgb())] (external_body wrapper enumerate_rgb)",
         "i32::pow(2) on channel differences specified as x*x; rasterize::RGBA replaced by an opaque stand-in with the contract of new/to_rgb (N18)",
+        "OcTree::prune_until: termination of the pruning loop is not verified (exec_allows_no_decreases_clause); OcTree::prune itself carries no contract and none is assumed",
         "OcTreeLeaf::to_rgba is called on leaves with color_count > 0 (precondition; leaves in the tree are created by from_rgba)",
         "palette bounds (1..=max(requested,8)), index-image validity, losslessness for small colour counts, sampling rule and Floyd-Steinberg diffusion order: not under contract",
     ],
@@ -216,7 +218,7 @@ PROPS["C20"] = {
 
 PROPS["C09"] = {
     "kani": [],
-    "verus": ["celllayout"],
+    "verus": ["celllayout", "putcell"],
     "technique": "Verus contract on the single layout routine Cell::layout (shared by measuring and writing), extracted verbatim; containment argument through the C07 contracts is by reading, not mechanised",
     "level_text": "Proved (Verus, every cell size, width, wrap mode, cursor and tracked size): Cell::layout keeps the writer invariant cursor.col <= max_width and size.width <= max_width, the tracked size is a "
                   "monotonically growing bounding box that covers every placed cell, a cell is placed at the cursor when it fits, else (wrapping only) at column 0 of the next row, and nothing is placed exactly for "
@@ -226,7 +228,9 @@ PROPS["C09"] = {
     "level_note": "Thin: only Cell::layout is under contract; Cell::size (unicode-width, glyph, image geometry) is an uninterpreted function; Face/Image/Glyph/ViewContext are opaque stand-ins (N18).",
     "assumptions": [
         "Cell::size returns some Size (uninterpreted); coordinates are below 2^48 (screen-sized), so sums cannot overflow",
-        "TerminalWriter::put_cell / TerminalWritable / Text::{layout,render} and the UTF-8 / escape-sequence decoders inside the io::Write adapters are not under contract",
+        "TerminalWriter::put_cell / TerminalWritable / Text::{layout,render} and the UTF-8 / escape-sequence decoders inside the io::Write adapters are not under contract "
+        "(a Kani harness for put_cell was built and withdrawn: overwriting a Cell runs the drop glue of CellKind, whose discriminant lives in the niche of `char`; CBMC cannot fold it and unrolls the recursive drop of rasterize::Scene without end - no verdict in 15 min even on a 2x2 window; "
+        "Verus cannot express the Option<&mut Cell> that get_mut hands back)",
         "writer invariant cursor.col <= max_width, size.width <= max_width holds initially (TerminalWriter::new starts from origin and empty size)",
     ],
 }
